@@ -56,19 +56,36 @@ pub fn tmatvec(a: &D, x: &[f64]) -> Vec<f64> {
 pub fn dot(a: &[f64], b: &[f64]) -> f64 {
     a.iter().zip(b).map(|(p, q)| p * q).sum()
 }
+/// 2-norm, safe against overflow/underflow of the squares (entries are scaled by a power of two first); NaN if an
+/// entry is NaN, infinite if one is infinite
 pub fn norm2(a: &[f64]) -> f64 {
-    let mut s = Dd::ZERO;
-    for v in a {
-        s = s + Dd::prod(*v, *v);
+    norm2_iter(a.iter().copied())
+}
+fn norm2_iter(it: impl Iterator<Item = f64> + Clone) -> f64 {
+    let mut m = 0.0f64;
+    for v in it.clone() {
+        if v.is_nan() {
+            return f64::NAN;
+        }
+        m = m.max(v.abs());
     }
-    s.to_f64().sqrt()
+    if m == 0.0 || m.is_infinite() {
+        return m;
+    }
+    // power of two near m: exact scaling
+    let e = m.log2().floor() as i32;
+    let (h1, h2) = (e / 2, e - e / 2);
+    let down = |v: f64| v * 2f64.powi(-h1) * 2f64.powi(-h2);
+    let mut s = Dd::ZERO;
+    for v in it {
+        let w = down(v);
+        s = s + Dd::prod(w, w);
+    }
+    s.to_f64().sqrt() * 2f64.powi(h1) * 2f64.powi(h2)
 }
 pub fn frob(a: &D) -> f64 {
-    let mut s = Dd::ZERO;
-    for v in a.iter().flatten() {
-        s = s + Dd::prod(*v, *v);
-    }
-    s.to_f64().sqrt()
+    let flat: Vec<f64> = a.iter().flatten().copied().collect();
+    norm2(&flat)
 }
 /// ||b - A x||_2 with the residual evaluated in double-double
 pub fn true_residual(a: &D, x: &[f64], b: &[f64]) -> f64 {
